@@ -42,6 +42,8 @@ def main():
                 viol = [l for l in r.stdout.splitlines() if l.startswith("VIOLATION")]
                 results["%s seed=%s" % (c, seed)] = dict(rc=r.returncode, violations=len(viol), first=(viol[0][:260] if viol else None), wall=round(time.time() - t0, 1),
                                                          tail=r.stdout.splitlines()[-1][:200] if r.stdout.strip() else "")
+                if r.returncode == 2:
+                    print("\n".join(r.stdout.splitlines()[-25:]))
                 print("%s %s seed=%s -> rc=%d %s (%.0fs)" % (a.name, c, seed, r.returncode, ("DETECTED: " + viol[0][:200]) if viol else "not detected: " + results["%s seed=%s" % (c, seed)]["tail"], time.time() - t0))
     finally:
         if not a.keep:
